@@ -140,7 +140,12 @@ func genOps(r *simcore.Rand, k Knobs, nnodes int, tier string, crash bool) []Op 
 		a, c := r.Intn(1<<20), r.Intn(1000)
 		switch r.Pick(10, 4, 3, 2, 2, 2, 2, 1) {
 		case 0:
-			ops = append(ops, Op{Kind: "insert", A: a, B: r.Pick(6, 2, 2, 2), C: c})
+			if crash {
+				// C39 judges crashes, not the import corner cases of C38: mostly plain imports
+				ops = append(ops, Op{Kind: "insert", A: a, B: r.Pick(12, 1, 1, 1), C: c})
+			} else {
+				ops = append(ops, Op{Kind: "insert", A: a, B: r.Pick(6, 2, 2, 2), C: c})
+			}
 		case 1:
 			ops = append(ops, Op{Kind: "setcanon", A: a})
 		case 2:
@@ -342,10 +347,16 @@ func runHistory(p *Plan, tree *refTree, res *simcore.Result, bubble bool) {
 // (NOTES.md). They are reported unless known_findings.jsonl lists their key;
 // CHAINSIM_ASSUME_FINDINGS=1 (development only) treats them as listed.
 var treeFindings = map[string]bool{
-	"head-state-missing:reinsert-known-canonical-block-rolls-state-back": true,
-	"logs-never-announced:known-block-made-head-again":                   true,
-	"added-log-twice:already-canonical-block-made-head-again":            true,
-	"txlookup-wrong:stale-lookup-cache":                                  true,
+	"head-state-missing:reinsert-known-canonical-block-rolls-state-back":             true,
+	"logs-never-announced:known-block-made-head-again":                               true,
+	"added-log-twice:already-canonical-block-made-head-again":                        true,
+	"restart-head-changed:pathdb-journal-failed-layer-stale":                         true,
+	"txlookup-wrong:stale-lookup-cache":                                              true,
+	"head-state-incomplete:pathdb-dangling-sibling-layer-stale":                      true,
+	"canon-above-head:header-head-was-ahead-of-block-head":                           true,
+	"canon-above-head:reimport-of-pruned-canonical-blocks-rewinds-head-below-frozen": true,
+	"canon-receipts-missing:unexecuted-sidechain-block-canonicalised":                true,
+	"logs-never-announced:unexecuted-sidechain-block-canonicalised":                  true,
 }
 
 var assumeFindings = os.Getenv("CHAINSIM_ASSUME_FINDINGS") != ""
